@@ -1,6 +1,6 @@
 """C08 - LM accept/reject bookkeeping: typestate over the paths of step(), strategy clamps and branch roles."""
 import ast
-from ..core import RuleResult, Finding, AnalysisError, dotted, src, norm_construct
+from ..core import RuleResult, Finding, AnalysisError, dotted, src, norm_construct, guarded, guarded_list
 from ..expr import dump
 from .. import paths
 
@@ -134,6 +134,7 @@ class TS:
                         self.D = 'overwritten'
 
 
+@guarded
 def rule_ts(repo, tier):
     res = RuleResult('C08.TS', 'typestate (parameters, self.loss, self.last) over every path of LevenbergMarquardt.step and '
                      'GaussNewton.step: a trial moves the parameters, self.loss follows the parameters it was evaluated at, a '
@@ -191,6 +192,7 @@ def rule_ts(repo, tier):
     return res
 
 
+@guarded
 def rule_rej_exc_strat(repo, tier):
     res = RuleResult('C08.REJ', 'reject_count is zeroed before the trial loop and every back edge passes reject_count + 1 under the guard '
                      'reject_count < self.reject (at most reject+1 trials); the solver call sits in a try whose handler path changes '
@@ -401,6 +403,7 @@ def strategy_paths(f):
     return out, pgname
 
 
+@guarded
 def rule_strategy(repo, tier):
     res = RuleResult('C08.CLAMP', 'strategies: the last write to damping (Adaptive) / radius and down (TrustRegion) on every path is clamped '
                      'to [self.min, self.max], TrustRegion damping is the reciprocal of the clamped radius, Constant leaves damping as it '
